@@ -7,6 +7,7 @@ import (
 	"path/filepath"
 	"time"
 
+	"github.com/inbucket/inbucket/v3/pkg/verifhook"
 	"github.com/rs/zerolog/log"
 )
 
@@ -48,6 +49,7 @@ func (mb *mbox) newMessage() (*Message, error) {
 	date := time.Now()
 	id := generateID(date)
 	for mb.hasID(id) {
+		verifhook.Point("file.add.idretry", id)
 		// The counter restarts with the process, never reuse the ID of an existing message.
 		date = time.Now()
 		id = generateID(date)
